@@ -46,7 +46,8 @@ NAME_OK = "abcdefghijklmnopqrstuvwxyz"
 
 
 def disc_token(d: dict[str, Any]) -> str:
-    return f"{d['name']}:{','.join(d['in']) or '-'}>{','.join(d['out']) or '-'}"
+    st = d.get("states") or []
+    return f"{d['name']}:{','.join(d['in']) or '-'}>{','.join(d['out']) or '-'}" + (f"~{','.join(st)}" if st else "")
 
 
 def graph_line(case: dict[str, Any]) -> str:
@@ -69,7 +70,14 @@ def edges_of(discs) -> set[tuple[int, int]]:
 def build_discs(case):
     from gemseo.utils.discipline import DummyDiscipline
 
-    return [DummyDiscipline(d["name"], d["in"], d["out"]) for d in case["discs"]]
+    out = []
+    for d in case["discs"]:
+        disc = DummyDiscipline(d["name"], d["in"], d["out"])
+        if d.get("states"):
+            # state variables: solved by the discipline itself from residuals, not a self-coupling
+            disc.io.residual_to_state_variable = {f"r_{v}": v for v in d["states"]}
+        out.append(disc)
+    return out
 
 
 def _idx(discs, d) -> int:
@@ -275,14 +283,19 @@ def oracle_graph(case, obs) -> list[tuple[str, str]]:
     if obs["edges"] != want_edges:
         bad.append(("edge-labels", f"get_disciplines_couplings() = {obs['edges']}, the names imply {want_edges}"))
     # 4. coupling sets implied by the graph
-    on_cycle = [len(scc_of[i]) > 1 or bool(set(discs[i]["in"]) & set(discs[i]["out"])) for i in range(n)]
+    # a discipline is on a cycle when it is mutually dependent with another one or feeds itself
+    # (a state variable, solved by the discipline itself, is not a feedback)
+    on_cycle = [
+        len(scc_of[i]) > 1 or bool((set(discs[i]["in"]) & set(discs[i]["out"])) - set(discs[i].get("states") or []))
+        for i in range(n)
+    ]
     strong = set()
     allc = set()
     for i in range(n):
         for j in range(n):
             lab = set(discs[i]["out"]) & set(discs[j]["in"])
             allc |= lab
-            if scc_of[i] == scc_of[j]:
+            if scc_of[i] == scc_of[j] and on_cycle[i]:
                 strong |= lab
     weak = set()
     for i in range(n):
@@ -530,7 +543,7 @@ def monolithic(case) -> dict[str, Fraction] | None:
 
 def has_cycle(discs) -> bool:
     n = len(discs)
-    if any(set(d["in"]) & set(d["out"]) for d in discs):
+    if any((set(d["in"]) & set(d["out"])) - set(d.get("states") or []) for d in discs):
         return True
     return any(len(c) > 1 for c in tarjan(n, edges_of(discs)))
 
@@ -649,7 +662,9 @@ def same_chain_line(impl: str, model: str, exact: bool) -> bool:
 # --------------------------------------------------------------------------- generators
 
 
-def labelled_graph(n: int, code: int, scheme: str = "asc", ext_bits: int = 0, noout_bits: int = 0) -> dict[str, Any]:
+def labelled_graph(
+    n: int, code: int, scheme: str = "asc", ext_bits: int = 0, noout_bits: int = 0, state_bits: int = 0
+) -> dict[str, Any]:
     """The labelled digraph (self-loops allowed) number `code` on n disciplines, realised with names:
     discipline i outputs y<i> (unless its `noout` bit is set) and reads y<j> for every edge j -> i."""
     nm = (lambda i: f"y{i}") if scheme == "asc" else (lambda i: f"y{n - 1 - i}")
@@ -659,7 +674,10 @@ def labelled_graph(n: int, code: int, scheme: str = "asc", ext_bits: int = 0, no
         if (ext_bits >> i) & 1:
             ins.append("x")
         outs = [] if (noout_bits >> i) & 1 else [nm(i)]
-        discs.append({"name": f"D{i}", "in": ins, "out": outs})
+        d = {"name": f"D{i}", "in": ins, "out": outs}
+        if (state_bits >> i) & 1 and nm(i) in ins and outs:
+            d["states"] = [nm(i)]  # the self-loop variable is a state variable of the discipline
+        discs.append(d)
     return {"discs": discs}
 
 
@@ -717,6 +735,14 @@ def gen_graph(rng: common.Rng, max_n: int = 9) -> dict[str, Any]:
             if f"y{a}" not in ins[b]:
                 ins[b].append(f"y{a}")
         discs = [{"name": f"D{i}", "in": ins[i], "out": [f"y{i}"]} for i in range(n)]
+    if rng.chance(0.25):
+        # declare some fed-back names as state variables of their discipline
+        for d in discs:
+            both = [v for v in d["in"] if v in d["out"]]
+            st = [v for v in both if rng.chance(0.6)]
+            if st:
+                d["states"] = st
+        style += "+states"
     return {"discs": discs, "style": style}
 
 
@@ -842,6 +868,8 @@ def shrink_case(case, fails) -> dict[str, Any]:
                 for v in d[side]:
                     cand = json.loads(json.dumps(cur))
                     cand["discs"][i][side] = [w for w in d[side] if w != v]
+                    if cand["discs"][i].get("states"):
+                        cand["discs"][i]["states"] = [w for w in cand["discs"][i]["states"] if w != v]
                     if cand.get("lin") is not None:
                         if side == "out":
                             cand["lin"][i].pop(v, None)
@@ -887,6 +915,8 @@ def neighbours(case):
             for v in d[side]:
                 c = json.loads(json.dumps(base))
                 c["discs"][i][side] = [w for w in d[side] if w != v]
+                if c["discs"][i].get("states"):
+                    c["discs"][i]["states"] = [w for w in c["discs"][i]["states"] if w != v]
                 if c.get("lin") is not None:
                     if side == "out":
                         c["lin"][i].pop(v, None)
@@ -1220,7 +1250,8 @@ def run(ctx) -> Result:
     )
     res.assumptions = [
         "names are [a-z0-9_]+ (sorted() on str = lexicographic order on code points in the model)",
-        "disciplines have no residual/state variables (is_self_coupled's residual_to_state_variable branch is not exercised)",
+        "state variables (residual_to_state_variable) are exercised in the graph stream only (DummyDiscipline); a name fed back by a "
+        "discipline to itself is not a self-coupling when it is one of its state variables",
         "chain stream: every output is computed by exactly one discipline; cyclic systems are contractive (inner MDA converges); "
         "values of cyclic systems are compared up to 2^-30 relative (rounded stream), acyclic ones exactly",
     ]
@@ -1243,6 +1274,13 @@ def run(ctx) -> Result:
                 for nb in range(2**n):
                     if eb or nb:
                         ex.append(labelled_graph(n, code, "asc", eb, nb))
+    for n in (1, 2, 3):
+        for code in range(2 ** (n * n)):
+            loops = sum(1 << i for i in range(n) if (code >> (i * n + i)) & 1)
+            sb = loops
+            while sb:  # every non-empty subset of the self-loops declared as state variables
+                ex.append(labelled_graph(n, code, "asc", 0, 0, sb))
+                sb = (sb - 1) & loops
     for code in range(512):
         ex.append(labelled_graph(3, code, "desc", rng.randrange(8), 0))
         ex.append(labelled_graph(3, code, "asc", rng.randrange(8), rng.randrange(8)))
